@@ -1,19 +1,25 @@
 /-
 C03 — body filtering is invariant under chunking of the response stream.
 
-Full statement: `ChunkInvariant tk ev ch` — for every way of cutting a valid UTF-8 body into chunks (empty chunks
-included), the concatenated output equals the output for the body delivered as one chunk.
+Full statement: `ChunkInvariant tk ev ch` — for every way of cutting a valid UTF-8 body into chunks (empty chunks, the
+empty list of chunks and cuts inside multi-byte characters included), the concatenated output equals the output for the
+body delivered as one chunk.
 
-It is FALSE of the code for html filters (known finding D4: the tokenizer context is lost at a chunk cut inside a
-raw-text zone / comment / declaration / CDATA): `chunk_invariant_fails` is a kernel-checked counterexample with the
-concrete tokenizer model (`<textarea><p>` ‖ `</textarea>`, the same input is pinned against the real code).
-What is proved: `text_chunk_invariant` (chains of text filters: unconditional, arbitrary bytes), and the `_partial`
-theorems of `Proofs/FilterSplit.lean` re-exported below.
+Before fe7eac6 it was FALSE of the code for html filters (finding D4: the tokenizer context was lost at a chunk cut inside
+a raw-text zone / comment / declaration / CDATA).  Since fe7eac6 `HtmlFilterBodyAction` carries the tokenizer context
+across chunks (`last_context`, `Tokenizer::new_fragment`) and keeps every token that was ended by the end of the data.
+
+`chunk_invariant` proves the FULL statement for the chain `FilterBodyAction::new` builds from any html and text filters
+(no `Content-Encoding`), under the laws of the stream tokenizer stated in Proofs/FilterStreamLaws.lean (`LosslessAll`,
+`TokValidAll`, `RestartLaw`, no token out of nothing) — every schedule, no safe-cut hypothesis.  The laws are discharged
+for the tokenizer model in Props/C03tok.lean.  The former D4 witness is pinned as `witness_fixed`.
 -/
 import RioModel.Proofs.FilterText
 import RioModel.Proofs.FilterTotal
 import RioModel.Proofs.FilterPipe
+import RioModel.Proofs.FilterNoFail
 import RioModel.Model.FilterHtml
+import RioModel.Props.C04
 set_option linter.unusedSimpArgs false
 set_option linter.unusedVariables false
 
@@ -29,7 +35,11 @@ def ValidBody (b : Bytes) : Prop := utf8Scan b = .ok
 def ChunkInvariant (tk : Tokenize) (ev : Bytes → Bytes → Bool) (codec : Codec D E) (ch : Chain D E) : Prop :=
   ∀ cs : List Bytes, ValidBody cs.flatten → ch.run tk ev codec cs = ch.run tk ev codec [cs.flatten]
 
-/-! ### the full statement is false for html filters (D4) -/
+theorem V_of_validBody {b : Bytes} (h : ValidBody b) : V b := by
+  have : utf8Split b = some (b, []) := by unfold utf8Split; rw [h]
+  exact V_utf8Split this
+
+/-! ### the former D4 witness -/
 
 /-- `<textarea><p></textarea>` -/
 def witnessBody : Bytes :=
@@ -42,23 +52,14 @@ def witnessChain : Chain Unit Unit :=
 /-- the cut: `<textarea><p>` ‖ `</textarea>` -/
 def witnessChunks : List Bytes := [witnessBody.take 13, witnessBody.drop 13]
 
-/-- One chunk: the body comes out unchanged (`<p>` is text of the textarea).  Two chunks: `$` is inserted after `<p>`,
-which is re-tokenised as a start tag because the raw-text context is not carried across the cut. -/
-theorem witness_outputs :
+/-- **The D4 witness is repaired** (kernel-evaluated on the tokenizer model; the same input is pinned against the real
+code in corpus/C03).  Before fe7eac6 the two-chunk run inserted `$` after `<p>`, re-tokenised as a start tag because the
+raw-text context was not carried across the cut; now both runs leave the body unchanged (`<p>` is text of the
+textarea). -/
+theorem witness_fixed :
     witnessChain.run htmlTokenize evalStandIn noCodec [witnessBody] = witnessBody ∧
-    witnessChain.run htmlTokenize evalStandIn noCodec witnessChunks =
-      witnessBody.take 13 ++ [36] ++ witnessBody.drop 13 := by
+    witnessChain.run htmlTokenize evalStandIn noCodec witnessChunks = witnessBody := by
   decide +kernel
-
-/-- **The full statement fails** for the tokenizer model of the real tokenizer (known finding D4,
-signature `cut-in-raw-text-zone`). -/
-theorem chunk_invariant_fails : ¬ ChunkInvariant htmlTokenize evalStandIn noCodec witnessChain := by
-  intro h
-  have h1 := h witnessChunks (by unfold ValidBody; decide +kernel)
-  have h2 : witnessChunks.flatten = witnessBody := by decide +kernel
-  rw [h2] at h1
-  rw [witness_outputs.1, witness_outputs.2] at h1
-  exact absurd h1 (by decide +kernel)
 
 /-! ### text filters: unconditional -/
 
@@ -106,43 +107,30 @@ theorem text_filters_chunk_invariant (tk : Tokenize) (ev : Bytes → Bytes → B
   obtain ⟨h1, h2⟩ := new_text_only lower fs headers henc htext
   exact text_chunk_invariant tk ev noCodec _ h1 h2 cs
 
-/-! ### html filters at safe cuts (partial) -/
+/-! ### html filters: every cut -/
 
-/-- **Splitting lemma** (one html stage): at a safe cut, the total output — outputs of the `filter` calls followed by
-`end()` — on `x ++ r` is the output of `filter(x)` followed by the total of the new state on `r`.
-`SafeCutT tk L x r` is a decidable statement about three tokenizations (Proofs/FilterTotal.lean): up to splitting of
-text tokens, the tokens of `L ++ x ++ r` are the tokens processed for `L ++ x` (prefix stability) followed by the
-tokens of a FRESH tokenizer on `held tail ++ r` (restart), same remainder, held tail at a character boundary. -/
-theorem split_lemma (tk : Tokenize) (ev : Bytes → Bytes → Bool) (s s1 : HtmlSt) (x r o1 : Bytes)
-    (h1 : filterHtml tk ev s x = some (s1, o1)) (hsafe : SafeCutT tk s.last x r) :
+/-- **Splitting lemma** (one html stage, every cut): the total output — outputs of the `filter` calls followed by
+`end()` — on `x ++ r` is the output of `filter(x)` followed by the total of the new state on `r`.  From the restart law
+of the stream tokenizer (`RestartLaw`): up to splitting of text tokens, the tokens of `data ++ more` in the remembered
+context are the tokens processed for `data` followed by the tokens of `kept tail ++ more` in the context remembered
+after the call. -/
+theorem split_lemma (tk : Tokenize) (ev : Bytes → Bytes → Bool) (hr : RestartLaw tk) (s s1 : HtmlSt) (x r o1 : Bytes)
+    (hc : Ctx s.ctx) (h1 : filterHtml tk ev s x = some (s1, o1)) :
     htmlTotal tk ev s (x ++ r) = (htmlTotal tk ev s1 r).map fun t => o1 ++ t :=
-  total_split tk ev s s1 x r o1 h1 hsafe
+  total_split tk ev hr s s1 x r o1 hc h1
 
-/-- the strict form: when the token lists agree exactly (`SafeCut`), even the states agree:
-`filter(x); filter(y)` = `filter(x ++ y)` -/
-theorem split_lemma_strict (tk : Tokenize) (ev : Bytes → Bytes → Bool) (s s1 : HtmlSt) (x y o1 : Bytes)
-    (h1 : filterHtml tk ev s x = some (s1, o1)) (hsafe : SafeCut tk s.last x y) :
-    filterHtml tk ev s (x ++ y) = (filterHtml tk ev s1 y).map fun r => (r.1, o1 ++ r.2) :=
-  filterHtml_merge tk ev s s1 x y o1 h1 hsafe
-
-/-- **Chunk invariance at safe cuts** for a chain that consists of one html filter: for every non-empty schedule all
-of whose cuts are safe (`SafeRun`: each cut seen from the state the stage is in when the chunk arrives, with
-everything that follows as continuation) and on which no call fails (valid UTF-8 body), the concatenated output is the
-output of the single chunk.  No tokenizer law is assumed: what the proof needs from the tokenizer is exactly the
-hypothesis, which is executable (`safeRunB`) and is evaluated on the tokenizer model by the driver and on the real
-tokenizer by the harness.  That it holds at every cut outside a comment / declaration / CDATA / raw-text zone is a
-property of the tokenizer that is differential-tested (every single cut of every generated body), not proved. -/
-theorem chunk_invariant_partial (tk : Tokenize) (ev : Bytes → Bytes → Bool) (codec : Codec D E)
-    (s : HtmlSt) (cs : List Bytes) (hne : cs ≠ []) (hsafe : SafeRun tk ev s cs)
-    (hok : seqRun tk ev s cs ≠ none) :
+/-- **Chunk invariance of one html stage, every schedule**: for every non-empty schedule on which no call fails, the
+outputs of the calls followed by `end()` are what the stage emits for the concatenation delivered as one chunk. -/
+theorem html_stage_chunk_invariant (tk : Tokenize) (ev : Bytes → Bytes → Bool) (codec : Codec D E) (hr : RestartLaw tk)
+    (s : HtmlSt) (hc : Ctx s.ctx) (cs : List Bytes) (hne : cs ≠ []) (hok : seqRun tk ev s cs ≠ none) :
     ({ items := [.html s] } : Chain D E).run tk ev codec cs =
       ({ items := [.html s] } : Chain D E).run tk ev codec [cs.flatten] := by
-  cases hr : seqRun tk ev s cs with
-  | none => exact absurd hr hok
+  cases hr' : seqRun tk ev s cs with
+  | none => exact absurd hr' hok
   | some r =>
     obtain ⟨s', o⟩ := r
-    have ht := seqRun_total tk ev cs s s' o hne hsafe hr
-    rw [run_single_html tk ev codec cs s s' o hr]
+    have ht := seqRun_total tk ev hr cs s s' o hne hc hr'
+    rw [run_single_html tk ev codec cs s s' o hr']
     unfold htmlTotal at ht
     cases hf : filterHtml tk ev s cs.flatten with
     | none => simp [hf] at ht
@@ -153,14 +141,13 @@ theorem chunk_invariant_partial (tk : Tokenize) (ev : Bytes → Bytes → Bool) 
       have hs : seqRun tk ev s [cs.flatten] = some (sb, ob) := by simp [seqRun, hf]
       rw [run_single_html tk ev codec [cs.flatten] s sb ob hs, ht]
 
-/-- **Chunk invariance at safe cuts for a chain of any number of html and text filters.**  The chain is a pipeline:
-each stage receives the NON-EMPTY outputs of the previous one (the `break` of `do_filter`) and, at end of stream, what
-the previous stage emits at end as one piece.  If no call fails and every stage is safe (`SafeG`: `SafeRun` for each
-html stage on the pieces it actually receives, nothing for text stages) both in the run on the schedule `cs` and in the
-run on the single chunk, the two concatenated outputs are equal.  (`SafeG` is executable: `safeGB`.) -/
-theorem chain_chunk_invariant_partial (tk : Tokenize) (ev : Bytes → Bytes → Bool) (codec : Codec D E)
-    (items : List (Stage D E)) (hp : AllPlain items) (cs : List Bytes) (hne : cs ≠ [])
-    (hsafe : SafeG tk ev codec items cs none) (hsafe1 : SafeG tk ev codec items [cs.flatten] none)
+/-- **Chunk invariance for a chain of any number of fresh html and text stages, every schedule** (the empty list of
+chunks included), when no call fails.  The chain is a pipeline: each stage receives the NON-EMPTY outputs of the previous
+one (the `break` of `do_filter`) and, at end of stream, what the previous stage emits at end as one piece; each stage is
+chunk-invariant on whatever pieces it receives. -/
+theorem chain_chunk_invariant (tk : Tokenize) (ev : Bytes → Bytes → Bool) (codec : Codec D E)
+    (hl : LosslessS tk) (hr : RestartLaw tk)
+    (items : List (Stage D E)) (hp : AllPlain items) (hinit : ∀ st ∈ items, StageInit tk st) (cs : List Bytes)
     (hok : runG tk ev codec items cs none ≠ none) (hok1 : runG tk ev codec items [cs.flatten] none ≠ none) :
     ({ items := items } : Chain D E).run tk ev codec cs =
       ({ items := items } : Chain D E).run tk ev codec [cs.flatten] := by
@@ -171,47 +158,124 @@ theorem chain_chunk_invariant_partial (tk : Tokenize) (ev : Bytes → Bytes → 
     | none => exact absurd h1 hok1
     | some out1 =>
       rw [run_of_runG tk ev codec cs items out h, run_of_runG tk ev codec [cs.flatten] items out1 h1]
-      exact runG_stream tk ev codec items cs none [cs.flatten] none out out1 hp (by simp)
-        (Or.inl ⟨by simpa using hne, by simp⟩) hsafe hsafe1 h h1
+      exact runG_stream tk ev codec hl hr items cs none [cs.flatten] none out out1 hp hinit (by simp) h h1
 
-/-- the Boolean evaluated by the driver implies the hypothesis -/
-theorem safeGB_implies (tk : Tokenize) (ev : Bytes → Bytes → Bool) (codec : Codec D E)
-    (items : List (Stage D E)) (ps : List Bytes) (fin : Option Bytes)
-    (h : safeGB tk ev codec items ps fin = true) : SafeG tk ev codec items ps fin :=
-  safeGB_sound tk ev codec items ps fin h
+/-- the stages `FilterBodyAction::new` builds are fresh: nothing held, no context -/
+theorem stage_new_init (tk : Tokenize) (hnil : (tk.stream [] []).1 = []) (f : BodyFilter) (ct : Option String)
+    (st : Stage Unit Unit) (h : Stage.new f ct = some st) : StageInit tk st := by
+  cases f with
+  | html action path sel value =>
+    simp only [Stage.new] at h
+    split at h
+    · simp only [Option.map_eq_some_iff] at h
+      obtain ⟨v, _, rfl⟩ := h
+      exact ⟨Or.inl rfl, rfl, hnil⟩
+    · simp at h
+  | text a c =>
+    simp only [Stage.new] at h
+    injection h with h; subst h
+    trivial
 
-/-- the Boolean evaluated by the driver implies the hypothesis -/
-theorem safeRunB_implies (tk : Tokenize) (ev : Bytes → Bytes → Bool) (s : HtmlSt) (cs : List Bytes)
-    (h : safeRunB tk ev s cs = true) : SafeRun tk ev s cs :=
-  safeRunB_sound tk ev cs s h
+/-- **C03, the full statement.**  For the chain `FilterBodyAction::new` builds from ANY list of html and text filters
+whose values are valid UTF-8 (they are Rust `String`s), without `Content-Encoding`: for every valid UTF-8 body and EVERY
+way of cutting it into chunks — inside tags, comments, declarations, CDATA, raw-text elements, multi-byte characters,
+with empty chunks or no chunk at all — the concatenated output is byte-identical to the output for the body delivered as
+one chunk.  Hypotheses: the laws of the tokenizer only (`LosslessAll`, `TokValidAll`, `RestartLaw`, no token out of
+nothing), discharged for the tokenizer model in Props/C03tok.lean; no call fails by `runG_ok` (valid body). -/
+theorem chunk_invariant {tk : Tokenize} (hl : LosslessAll tk) (hv : TokValidAll tk) (hr : RestartLaw tk)
+    (hnil : (tk.stream [] []).1 = []) (ev : Bytes → Bytes → Bool) (lower : String → String)
+    (fs : List BodyFilter) (headers : List (String × String))
+    (henc : headerValue lower Rio.Consts.filterHeaderContentEncoding headers = none)
+    (hval : ∀ f ∈ fs, V (Rio.C04.filterValue f)) :
+    ChunkInvariant tk ev noCodec (Chain.new noCodec lower fs headers) := by
+  intro cs hbody
+  have hvb : V cs.flatten := V_of_validBody hbody
+  rw [Rio.C04.new_plain noCodec lower fs headers henc]
+  generalize headerValue lower Rio.Consts.filterHeaderContentType headers = ct
+  have hdown : Down (fs.filterMap fun f => (Stage.new f ct : Option (Stage Unit Unit))) := by
+    intro st hst
+    simp only [List.mem_filterMap] at hst
+    obtain ⟨f, hf, hnew⟩ := hst
+    exact Rio.C04.stage_new_down f ct st (hval f hf) hnew
+  have hinit : ∀ st ∈ (fs.filterMap fun f => (Stage.new f ct : Option (Stage Unit Unit))), StageInit tk st := by
+    intro st hst
+    simp only [List.mem_filterMap] at hst
+    obtain ⟨f, hf, hnew⟩ := hst
+    exact stage_new_init tk hnil f ct st hnew
+  have hplain : AllPlain (fs.filterMap fun f => (Stage.new f ct : Option (Stage Unit Unit))) := by
+    intro st hst
+    have := hdown st hst
+    cases st <;> simp_all [DStage, isPlain]
+  apply chain_chunk_invariant tk ev noCodec hl.stream hr _ hplain hinit cs
+  · obtain ⟨out, h, _⟩ := runG_ok hl hv ev noCodec _ cs none hdown (by simpa using hvb)
+    rw [h]; simp
+  · obtain ⟨out, h, _⟩ := runG_ok hl hv ev noCodec _ [cs.flatten] none hdown (by simpa using hvb)
+    rw [h]; simp
 
-/-- `chunk_invariant_partial` is not vacuous on the tokenizer model of the real tokenizer: the schedule
-`<di` ‖ `v><p>x y` ‖ ` z</` ‖ `p></div>` (cuts inside a start tag, inside plain text, inside an end tag) is safe, the
-filter acts (`$` is prepended in `<p>`), and both runs agree — by the theorem, not by evaluating the two runs. -/
-def safeBody : List Bytes :=
-  [[60, 100, 105], [118, 62, 60, 112, 62, 120, 32, 121], [32, 122, 60, 47], [112, 62, 60, 47, 100, 105, 118, 62]]
+/-! ### what the repair costs: an unfinished construct is kept until it is finished
 
-def safeStage : HtmlSt := HtmlSt.new { kind := .prepend, cur := [112], content := [36] }
+Since fe7eac6 a comment / declaration / CDATA section / raw-text content (`<script>`, `<style>`, `<textarea>`, …) / tag
+that is still open at the end of a chunk is kept whole in `last_buffer` until the chunk that closes it (or `end()`)
+arrives; before, raw text and comments were emitted progressively (and mis-tokenised: D4).  What is kept is exactly the
+unprocessed suffix of the data, and it starts at the first token that was ended by the end of the data: -/
 
-theorem safe_example :
-    ({ items := [.html safeStage] } : Chain Unit Unit).run htmlTokenize evalStandIn noCodec safeBody =
-      ({ items := [.html safeStage] } : Chain Unit Unit).run htmlTokenize evalStandIn noCodec [safeBody.flatten] :=
-  chunk_invariant_partial htmlTokenize evalStandIn noCodec safeStage safeBody (by decide)
-    (safeRunB_sound htmlTokenize evalStandIn safeBody safeStage (by decide +kernel))
-    (by
-      have : (seqRun htmlTokenize evalStandIn safeStage safeBody).isSome = true := by decide +kernel
-      intro h; rw [h] at this; simp at this)
+theorem dropWhile_head_false {α : Type} (p : α → Bool) : ∀ (l : List α) (c : α) (rest : List α),
+    l.dropWhile p = c :: rest → p c = false
+  | [], _, _, h => by simp at h
+  | a :: l, c, rest, h => by
+    rw [List.dropWhile_cons] at h
+    split at h
+    · exact dropWhile_head_false p l c rest h
+    · rename_i hp
+      injection h with h1 _
+      subst h1
+      simpa using hp
 
-/-- ... and the filter does act on that input -/
-theorem safe_example_acts :
-    ({ items := [.html safeStage] } : Chain Unit Unit).run htmlTokenize evalStandIn noCodec [safeBody.flatten] =
-      [60, 100, 105, 118, 62, 60, 112, 62, 36, 120, 32, 121, 32, 122, 60, 47, 112, 62, 60, 47, 100, 105, 118, 62] := by
-  decide +kernel
-
-/-- the D4 witness is (of course) not a safe run -/
-theorem witness_not_safe :
-    safeRunB htmlTokenize evalStandIn (HtmlSt.new { kind := .prepend, cur := [112], content := [36] }) witnessChunks = false := by
-  decide +kernel
+/-- **What one call keeps**: `last_buffer` after the call is the suffix of the validated data that follows the processed
+tokens, then the incomplete character; and that suffix is (a) the remainder reported at the `ErrorToken` (an unfinished
+tag), or (b) a last text token containing `<` followed by that remainder, or (c) begins with the first token cut by the
+end of the data (`isCut`: the open comment / declaration / raw text / tag) — nothing before it is kept. -/
+theorem held_bytes {tk : Tokenize} (hl : LosslessS tk) (ev : Bytes → Bytes → Bool) (s s' : HtmlSt) (x o : Bytes)
+    (h : filterHtml tk ev s x = some (s', o)) :
+    ∃ data pending, utf8Split (s.last ++ x) = some (data, pending) ∧
+      s'.last = (view tk s.ctx data).tail ++ pending ∧
+      rawsOf (view tk s.ctx data).todo ++ (view tk s.ctx data).tail = data ∧
+      ((view tk s.ctx data).tail = (tk.stream s.ctx data).2.1 ∨
+       (∃ t : Tok, t.kind = .text ∧ hasLt t.raw = true ∧ (view tk s.ctx data).tail = t.raw ++ (tk.stream s.ctx data).2.1) ∨
+       (∃ c rest, (cutSplit (tk.stream s.ctx data).1).2 = c :: rest ∧ isCut c = true ∧
+          (view tk s.ctx data).tail = c.tok.raw ++ (rawsOf (toksOf rest) ++ (tk.stream s.ctx data).2.1))) := by
+  rw [filterHtml_view] at h
+  cases hsp : utf8Split (s.last ++ x) with
+  | none => simp [hsp] at h
+  | some ap =>
+    obtain ⟨data, pending⟩ := ap
+    simp only [hsp] at h
+    injection h with h
+    injection h with h1 _
+    subst h1
+    refine ⟨data, pending, rfl, rfl, view_todo_tail tk hl s.ctx data, ?_⟩
+    unfold view
+    simp only
+    cases hpost : (cutSplit (tk.stream s.ctx data).1).2 with
+    | nil =>
+      simp only [List.isEmpty_nil, if_true, toksOf, List.map_nil, rawsOf, List.flatMap_nil, List.append_nil]
+      unfold splitHeld
+      split
+      · rename_i t ht
+        split
+        · rename_i hc
+          right; left
+          exact ⟨t, hc.1, hc.2, rfl⟩
+        · left; simp
+      · left; simp
+    | cons c rest =>
+      right; right
+      refine ⟨c, rest, rfl, ?_, ?_⟩
+      · unfold cutSplit at hpost
+        simp only at hpost
+        have := dropWhile_head_false _ _ _ _ hpost
+        simpa using this
+      · simp [toksOf, rawsOf, List.append_assoc]
 
 /-! ### non-vacuity -/
 
